@@ -22,6 +22,8 @@ def r6(ctx):
 RULES = {
     "C08.R1": lambda ctx: bldrules.index_lookup(ctx, "C08.R1"),
     "C08.R2": lambda ctx: bldrules.flatten_translation(ctx, "C08.R2"),
+    "C08.R2b": lambda ctx: bldrules.add_with_id(ctx, "C08.R2b"),
+    "C08.R2c": lambda ctx: bldrules.interning(ctx, "C08.R2c"),
     "C08.R3": lambda ctx: bldrules.flatten_translation(ctx, "C08.R3"),
     "C08.R3b": lambda ctx: bldrules.contents_predicates(ctx, "C08.R3b"),
     "C08.R4": lambda ctx: bldrules.builder_calls(ctx, "C08.R4"),
